@@ -163,7 +163,7 @@ func (d *Decimal) Neg() *Decimal {
 func (d *Decimal) Mul(o *Decimal) *Decimal {
 	// a*10^x * b*10^y = (a*b) * 10^(x+y)
 	scale := int64(d.scale) + int64(o.scale)
-	if scale > math.MaxInt32 || scale < math.MinInt32 {
+	if scale > math.MaxInt32 || scale <= math.MinInt32 {
 		panic("exponent out of bounds")
 	}
 
@@ -178,7 +178,7 @@ func (d *Decimal) Mul(o *Decimal) *Decimal {
 // d * 10^shift.
 func (d *Decimal) ShiftL(shift int) *Decimal {
 	scale := int64(d.scale) - int64(shift)
-	if scale > math.MaxInt32 || scale < math.MinInt32 {
+	if scale > math.MaxInt32 || scale <= math.MinInt32 {
 		panic("exponent out of bounds")
 	}
 
@@ -193,7 +193,7 @@ func (d *Decimal) ShiftL(shift int) *Decimal {
 // d / 10^shift.
 func (d *Decimal) ShiftR(shift int) *Decimal {
 	scale := int64(d.scale) + int64(shift)
-	if scale > math.MaxInt32 || scale < math.MinInt32 {
+	if scale > math.MaxInt32 || scale <= math.MinInt32 {
 		panic("exponent out of bounds")
 	}
 
@@ -330,7 +330,7 @@ func (d *Decimal) Truncate(precision int) *Decimal {
 	}
 
 	scale := int64(d.scale) - int64(diff)
-	if scale < math.MinInt32 {
+	if scale <= math.MinInt32 {
 		panic("exponent out of range")
 	}
 
